@@ -287,7 +287,7 @@ pub fn run_mut_program(p: &Value, out: &mut String) {
         let name = o["op"].as_str().unwrap_or("");
         let n = dec(&o["n"]);
         let m = o["m"].as_str().unwrap_or("");
-        let d = bytes_of(&o["d"]);
+        let mut d = bytes_of(&o["d"]);
         let mut rn: i64 = 0;
         let mut flag = true;
         let mut rv: Vec<u8> = vec![];
@@ -376,6 +376,19 @@ pub fn run_mut_program(p: &Value, out: &mut String) {
                     let after = BufMut::remaining_mut(&**root.as_ref().unwrap());
                     // (remaining_mut of growing targets saturates: count from the result)
                     rn = if flag { d.len() as i64 } else { before.saturating_sub(after) as i64 };
+                }
+                "write" if m == "vectored" && d.len() >= 2 => {
+                    // write_vectored with two non-empty slices: the provided method writes the first
+                    // non-empty slice only, i.e. it is write(first slice) -- logged as such
+                    let h = d.len() / 2;
+                    let mut w = root.take().unwrap().writer();
+                    let got = w.write_vectored(&[std::io::IoSlice::new(&[]), std::io::IoSlice::new(&d[..h]), std::io::IoSlice::new(&d[h..])]);
+                    flag = got.is_ok();
+                    rn = got.unwrap_or(0) as i64;
+                    let fl = w.flush();
+                    flag = flag && fl.is_ok();
+                    root = Some(w.into_inner());
+                    d.truncate(h);
                 }
                 "write" => {
                     let mut w = root.take().unwrap().writer();
